@@ -212,7 +212,7 @@ def find_word_in_line(line: str, word: str) -> Range:
     line : str
         Text line
     word : str
-        word to find in line
+        word to find in line, a lower-case word matches whatever the case in line
 
     Returns
     -------
@@ -224,7 +224,7 @@ def find_word_in_line(line: str, word: str) -> Range:
         (
             poss_name.start()
             for poss_name in FRegex.WORD.finditer(line)
-            if poss_name.group() == word
+            if poss_name.group() == word or poss_name.group().lower() == word
         ),
         -1,
     )
